@@ -78,6 +78,7 @@ Agree(e) ==
                                 /\ (CanonicalDefaults(f) => AgreeWith(e, AcceptedExp(f, e.allow, Want(e)))))
             ELSE /\ AgreeWith(e, AcceptedExp(f, e.allow, Want(e) \cup {"ok"}))
                  /\ ("snap" \in DOMAIN e.out => ViewLaws(e.out.snap))
+                 /\ ("bsnap" \in DOMAIN e.out => ViewLaws(e.out.bsnap))
     [] e.op = "fuzz" -> /\ "panic" \notin DOMAIN e.out
                         /\ \A k \in {"snap1", "snap2"} : k \in DOMAIN e.out => ViewLaws(e.out[k])
     [] e.op = "pairschema" -> /\ "panic" \notin DOMAIN e.out
